@@ -386,11 +386,10 @@ def _run_seed(args):
         return dict(id="seed-" + sid, status="skipped", detail="variant does not parse: %s" % e, expect="fire", note="seeded change " + sid)
     fired, err = [], None
     try:
+        from .engine import run_rules
         ctx = Ctx(program=prog, tier="quick")
-        for rule in props.rules_for(prop):
-            res = rule(ctx)
-            for r in (res if isinstance(res, list) else [res]):
-                fired += [f.rule for f in r.findings]
+        allres, err = run_rules(ctx, props.rules_for(prop))
+        fired = [] if err else [f.rule for r in allres for f in r.findings]
     except AnalysisError as e:
         err = str(e)
     except Exception as e:
@@ -437,16 +436,10 @@ def _run_refactor(args):
     fired, err = [], None
     try:
         from .engine import unresolved_guard
+        from .engine import run_rules
         ctx = Ctx(program=prog, tier="quick")
-        allres = []
-        for rule in props.rules_for(prop):
-            res = rule(ctx)
-            for r in (res if isinstance(res, list) else [res]):
-                allres.append(r)
-                fired += ["%s %s" % (f.rule, f.construct) for f in r.findings]
-        g = unresolved_guard(ctx, allres)
-        if g:
-            err, fired = g, []
+        allres, err = run_rules(ctx, props.rules_for(prop))
+        fired = [] if err else ["%s %s" % (f.rule, f.construct) for r in allres for f in r.findings]
     except AnalysisError as e:
         err = str(e)
     except Exception as e:
@@ -471,12 +464,10 @@ def _run_one(args):
     fired = []
     err = None
     try:
+        from .engine import run_rules
         ctx = Ctx(program=prog, tier="quick")
-        for rule in props.rules_for(entry["prop"]):
-            res = rule(ctx)
-            for r in (res if isinstance(res, list) else [res]):
-                for f in r.findings:
-                    fired.append(f.rule)
+        allres, err = run_rules(ctx, props.rules_for(entry["prop"]))
+        fired = [] if err else [f.rule for r in allres for f in r.findings]
     except AnalysisError as e:
         err = str(e)
     except Exception as e:      # a crash of the checker on a variant is a self-test failure
